@@ -43,9 +43,18 @@ func init() {
 		Ref: "DESIGN.md §4 C08"})
 	dp := "router/dataplane.go"
 	addMutants(
-		Mutant{Prop: "C08", Name: "hopfield-length-check-removed", File: "pkg/slayers/path/hopfield.go",
+		// every caller in the router's closure hands HopField.DecodeFromBytes a slice
+		// x[a:a+HopLen]; since the caller-contract route of E8 exists, removing the
+		// callee's own test is crash-equivalent for the router and must not be reported
+		Mutant{Prop: "C08", Name: "benign-hopfield-length-check-removed", File: "pkg/slayers/path/hopfield.go", Benign: true,
 			Old: `	if len(raw) < HopLen {
 		return serrors.New("HopField raw too short", "expected", HopLen, "actual", len(raw))
+	}`, New: ``},
+		// ... but the caller's test, which that contract rests on, is needed
+		Mutant{Prop: "C08", Name: "onehop-length-check-removed", File: "pkg/slayers/path/onehop/onehop.go",
+			Old: `	if len(data) < PathLen {
+		return serrors.New("buffer too short for OneHop path", "expected", PathLen, "actual",
+			len(data))
 	}`, New: ``, Expect: "B1-bounds"},
 		Mutant{Prop: "C08", Name: "scmp-echo-short-check", File: "pkg/slayers/scmp_msg.go",
 			Old: `	minLength := 4
@@ -262,6 +271,7 @@ func runC08(c *Ctx) {
 	c08ParseFirst(c)
 	c08SlowPathTypes(c)
 	c08Headroom(c)
+	c08RawInvariant(c)
 	// V1
 	if fn := c.Fn(procT + ".process"); fn != nil {
 		e := NewE1(c, fn)
